@@ -243,6 +243,12 @@ func Run(c *core.Ctx) int {
 				})
 			}
 		}
+		// every identifier written in the other textual forms a lenient parser may take (URN, braces,
+		// upper case, no dashes): what GOBL accepts it must write so that `format: uuid` holds
+		for _, form := range []string{"urn", "braces", "upper", "nodash"} {
+			form := form
+			sweep(e, "uuid-form:"+form, func(t any) bool { return respellUUIDs(t, form) > 0 })
+		}
 		// identity codes with the characters only the exempt country's rule admits
 		for _, code := range []string{"K&A010301I16", "ÑAB010301I16", "Ñ&A0103019ZZ", "&&&&0103019ZZ"} {
 			code := code
@@ -732,6 +738,46 @@ func syntheticInputs() []example {
 	add("pay-terms", map[string]any{"$schema": base + "pay/terms", "key": "due-date", "due_dates": []any{map[string]any{"date": "2024-02-01", "amount": "10.00", "percent": "100%"}}})
 	add("org-person", map[string]any{"$schema": base + "org/person", "name": map[string]any{"given": "Ana", "surname": "López"}, "emails": []any{map[string]any{"addr": "a@b.co"}}})
 	return out
+}
+
+var reUUIDText = regexp.MustCompile(`^[0-9a-f]{8}-[0-9a-f]{4}-[0-9a-f]{4}-[0-9a-f]{4}-[0-9a-f]{12}$`)
+
+// respellUUIDs rewrites every string that is a canonical UUID text in another textual form.
+func respellUUIDs(v any, form string) int {
+	re := func(s string) string {
+		switch form {
+		case "urn":
+			return "urn:uuid:" + s
+		case "braces":
+			return "{" + s + "}"
+		case "upper":
+			return strings.ToUpper(s)
+		default:
+			return strings.ReplaceAll(s, "-", "")
+		}
+	}
+	n := 0
+	switch x := v.(type) {
+	case map[string]any:
+		for k, val := range x {
+			if sv, ok := val.(string); ok && reUUIDText.MatchString(sv) {
+				x[k] = re(sv)
+				n++
+				continue
+			}
+			n += respellUUIDs(val, form)
+		}
+	case []any:
+		for i, val := range x {
+			if sv, ok := val.(string); ok && reUUIDText.MatchString(sv) {
+				x[i] = re(sv)
+				n++
+				continue
+			}
+			n += respellUUIDs(val, form)
+		}
+	}
+	return n
 }
 
 // setTaxIDCodes sets (or adds) the code of every tax_id object in a document.
